@@ -58,3 +58,24 @@ Example C10_close_inflight_refuted_on_pinned_tree :
   count_invokes 0 (snd (c_close false false c1)) = 0 /\ c_T (fst (c_close false false c1)) <> [] /\
   count_invokes 0 (snd (c_close true false c1)) = 1 /\ c_T (fst (c_close true false c1)) = [].
 Proof. vm_compute. repeat split. discriminate. Qed.
+
+(* "If Start returns an error the handler is never invoked": unless Start returns nil, the instance it
+   would have used is not registered afterwards (or nothing changed at all); with [C10_finished_is_silent]
+   it is then never invoked and never written in any continuation *)
+Theorem C10_start_error_unregistered : forall c id raw h, tinv c ->
+  let '(c', ob) := c_start c id raw (Some h) in
+  In (ORet CNil) ob \/ (lives (c_T c') (c_next_inst c) = false /\ c_next_inst c < c_next_inst c' \/ c' = c).
+Proof. exact start_error_unregistered. Qed.
+Print Assumptions C10_start_error_unregistered.
+
+(* fixed defect, kept with its witness: on the pinned tree a Start that the agent refused (another user
+   of a shared agent holds the ID) returned the error but stayed registered; the agent's later event for
+   that ID (here: Close) then invoked the handler of the failed Start *)
+Example C10_start_error_refuted_on_pinned_tree :
+  let c0 := c_foreign (new_client 100 7 true None) 257 in
+  let pinned := c_start_pinned c0 257 [1;2;3] (Some 5) in
+  let fixed := c_start c0 257 [1;2;3] (Some 5) in
+  snd pinned = [ORet (CAgentErr RExists)] /\ snd fixed = [ORet (CAgentErr RExists)] /\
+  count_invokes 0 (snd (c_close true true (fst pinned))) = 1 /\
+  count_invokes 0 (snd (c_close true true (fst fixed))) = 0 /\ c_T (fst fixed) = [].
+Proof. vm_compute. repeat split. Qed.
